@@ -1,19 +1,19 @@
-\* generated by lib/brokerlib.py mc_configs (kept here so that the model can be run by hand: tlc -config MC_core.cfg Broker.tla)
+\* generated by lib/brokerlib.py mc_configs (kept here so that the model can be run by hand: tlc -config MC_big.cfg Broker.tla)
 CONSTANTS
-  Proxies = {"p1", "p2"}
+  Proxies = {"p1", "p2", "p3"}
   Clients = {"c1", "c2"}
   Answers = {"a1", "a2"}
   PT = 2
   CT = 2
-  Loads = {0, 8}
+  Loads = {0, 8, 16}
   NoTies = TRUE
   StrictTimers = FALSE
   D1Fixed = TRUE
   D2Fixed = TRUE
   PNatSet = {"unrestricted"}
   CNatSet = {"restricted"}
-  FpSet = {"default", "b2"}
-  UnknownTargets = TRUE
+  FpSet = {"default"}
+  UnknownTargets = FALSE
   Bridges = {"default", "b2"}
   DupSids = FALSE
   Rejects = FALSE
